@@ -326,6 +326,41 @@ Theorem C04_fragment_index_faults_iff_short :
 Proof. exact frag_index_faults_iff_short. Qed.
 Print Assumptions C04_fragment_index_faults_iff_short.
 
+(* and / or at EVENT level (`e.C(b).Count() > 0 and e.C(b)[0].pt() > 5`, as a column or as the event filter): the second
+   operand's declarations and code are emitted inside `if (v)` / `if (!v)` (FragTranslate.te, case EBool), the reference
+   evaluates it only when the first operand does not decide, and C01_query_job proves for every query of the fragment that
+   the job does exactly what the reference does.  So a guard protects what follows it - whatever that would do. *)
+Theorem C04_fragment_event_guard_protects :
+  forall (ev : event) (is_and : bool) (a b : ex) (x : value) (t : bool),
+  de ev a = ROk x -> truth (conv "bool" x) = ROk t -> Bool.eqb t is_and = false ->
+  dex ev (EBool is_and a b) = ROk (VBool t).
+Proof. exact ebool_lazy. Qed.
+Print Assumptions C04_fragment_event_guard_protects.
+
+Theorem C04_fragment_event_second_operand :
+  forall (ev : event) (is_and : bool) (a b : ex) (x y : value) (t u : bool),
+  de ev a = ROk x -> truth (conv "bool" x) = ROk t -> Bool.eqb t is_and = true ->
+  de ev b = ROk y -> truth (conv "bool" y) = ROk u ->
+  dex ev (EBool is_and a b) = ROk (VBool u).
+Proof. exact ebool_second. Qed.
+Print Assumptions C04_fragment_event_second_operand.
+
+(* non-vacuity, on the emitted program itself: with no jets `Count() > 0 and [0].pt() > 5` writes the row (false); the
+   unguarded index fails with out_of_range *)
+Definition jets_g : collref := {| c_base := "jets"; c_ctype := "const xAOD::JetContainer*"; c_bank := "aj"; c_arrow := true |}.
+Definition guard_q : ex :=
+  EBool true (EBin OGt (ECount {| k_coll := jets_g; k_guard := GNone; k_agg := ACount |}) (EInt 0))
+             (EBin OGt (EIdx jets_g 0 "pt") (EInt 5)).
+Definition ev_nojets : event := {| ev_colls := [(("const xAOD::JetContainer*", "aj"), VVec [])]; ev_meths := [] |}.
+Definition ev_onejet : event := {| ev_colls := [(("const xAOD::JetContainer*", "aj"), VVec [VObj 0])]; ev_meths := [((0, "pt"), VInt 9)] |}.
+Definition atlas_g : FragTranslate.backend :=
+  {| b_idiom := "atlas"; b_tree := "atlas_xaod_tree"; b_fill := "tree(""atlas_xaod_tree"")->Fill();" |}.
+Example C04_event_guard_example :
+  (exists ms, run_event (prog_row atlas_g [("ok", ColScalar guard_q)] 0) [("_ok5", ("bool", VUninit))] ev_nojets = ROk ([[VBool false]], ms)) /\
+  (exists ms, run_event (prog_row atlas_g [("ok", ColScalar guard_q)] 0) [("_ok5", ("bool", VUninit))] ev_onejet = ROk ([[VBool true]], ms)) /\
+  run_event (prog_row atlas_g [("ok", ColScalar (EBin OGt (EIdx jets_g 0 "pt") (EInt 5)))] 0) [("_ok1", ("bool", VUninit))] ev_nojets = RFault FOutOfRange.
+Proof. vm_compute. repeat split; eexists; reflexivity. Qed.
+
 (* and / or in a Where of the fragment (lowered through a bool variable declared in the loop block, each further
    operand assigned inside `if (v)` / `if (!v)`): the guard of the reference semantics, which C01_query_job proves
    the emitted job implements for every query, is as lazy as Python's - the operands after the deciding one are
